@@ -53,34 +53,65 @@ class Ctx:
         return False
 
     def snapshot_all(self, local: dict) -> dict:
-        """deep copy of the inputs with one shared memo; remembers copy -> original for same()"""
+        """Copy of the inputs for old(): containers and objects of classes the contracts describe are copied (one
+        shared memo, so sharing is preserved); every other object is an opaque reference and is *shared* with the
+        live state, because the contracts only ever compare it by identity.  Remembers copy -> original for same()."""
+        import dataclasses
+        known = {q.split(":")[-1] for q in self.reg.classes}
         memo: dict = {}
-        out = {}
-        for k, v in local.items():
-            try:
-                out[k] = copy.deepcopy(v, memo)
-            except Exception:
-                out[k] = v
-        # memo maps id(original) -> copy; originals are found by walking the inputs
-        originals = {}
-        stack = list(local.values())
-        seen = set()
-        while stack:
-            x = stack.pop()
-            if id(x) in seen:
-                continue
-            seen.add(id(x))
-            originals[id(x)] = x
-            if isinstance(x, (list, tuple, set)):
-                stack.extend(x)
+        self.alias.clear()      # ids of earlier snapshots may have been recycled
+
+        def cp(x):
+            if x is None or isinstance(x, (bool, int, float, str, bytes)):
+                return x
+            if id(x) in memo:
+                return memo[id(x)][1]
+            if isinstance(x, bytearray):
+                r = bytearray(x)
+            elif isinstance(x, list):
+                r = []
+                memo[id(x)] = (x, r)
+                self.alias[id(r)] = x
+                r.extend(cp(e) for e in x)
+                return r
+            elif type(x).__name__ == "deque":
+                r = type(x)()
+                memo[id(x)] = (x, r)
+                self.alias[id(r)] = x
+                r.extend(cp(e) for e in x)
+                return r
+            elif isinstance(x, tuple):
+                r = tuple(cp(e) for e in x)
+            elif isinstance(x, (set, frozenset)):
+                r = type(x)(cp(e) for e in x)
+                if isinstance(x, set):
+                    self.alias[id(r)] = x
             elif isinstance(x, dict):
-                stack.extend(x.keys())
-                stack.extend(x.values())
-            elif hasattr(x, "__dict__"):
-                stack.extend(vars(x).values())
-        for oid, cp in memo.items():
-            if oid in originals and cp is not originals[oid]:
-                self.alias[id(cp)] = originals[oid]
+                r = {}
+                memo[id(x)] = (x, r)
+                self.alias[id(r)] = x
+                for k, v in x.items():
+                    r[cp(k)] = cp(v)
+                return r
+            elif type(x).__name__ in known or (dataclasses.is_dataclass(x) and type(x).__module__.startswith("aiortc")):
+                try:
+                    r = type(x).__new__(type(x))
+                except Exception:
+                    return x
+                memo[id(x)] = (x, r)
+                for k, v in list(vars(x).items()):
+                    try:
+                        object.__setattr__(r, k, cp(v))
+                    except Exception:
+                        pass
+                self.alias[id(r)] = x
+                return r
+            else:
+                return x           # opaque: shared
+            memo[id(x)] = (x, r)
+            return r
+
+        out = {k: cp(v) for k, v in local.items()}
         self._keepalive = (memo, out)
         return out
 
